@@ -798,6 +798,11 @@ func (cache *reservationCache) updateReservation(newR *schedulingv1alpha1.Reserv
 		rInfo = frameworkext.NewReservationInfo(newR)
 		cache.reservationInfos[newR.UID] = rInfo
 	} else {
+		// The reservation may come back placed on another node under the same uid (node migration in
+		// multi-scheduler scenarios): drop the per-node entries of the node it leaves.
+		if oldNodeName := rInfo.GetNodeName(); oldNodeName != "" && oldNodeName != newR.Status.NodeName {
+			cache.deleteNodeEntries(oldNodeName, newR.UID)
+		}
 		rInfo.UpdateReservation(newR)
 	}
 	// refresh the white-list label index. Labels may have changed across updates,
@@ -895,13 +900,25 @@ func (cache *reservationCache) DeleteReservation(r *schedulingv1alpha1.Reservati
 	defer cache.lock.Unlock()
 	uid := r.UID
 	rInfo := cache.reservationInfos[uid]
+	nodeName := r.Status.NodeName
+	if rInfo != nil {
+		// The cached reservation may be placed on another node than the object handed in (the update that moved
+		// it was already applied by another informer listener): its per-node entries must go with it.
+		if curNodeName := rInfo.GetNodeName(); curNodeName != "" && curNodeName != nodeName {
+			cache.deleteNodeEntries(curNodeName, uid)
+		}
+	}
 	delete(cache.reservationInfos, uid)
 	if cache.indexEnabled {
 		cache.removeFromIndex(uid)
 	}
-	nodeName := r.Status.NodeName
+	cache.deleteNodeEntries(nodeName, uid)
+	return rInfo
+}
+
+// deleteNodeEntries removes the reservation from the per-node indexes of one node. Caller MUST hold cache.lock.
+func (cache *reservationCache) deleteNodeEntries(nodeName string, uid types.UID) {
 	cache.deleteReservationOnNode(nodeName, uid)
-	// refresh matchable and allocated
 	if cache.matchableOnNode[nodeName] != nil {
 		delete(cache.matchableOnNode[nodeName], uid)
 		if len(cache.matchableOnNode[nodeName]) == 0 {
@@ -914,7 +931,6 @@ func (cache *reservationCache) DeleteReservation(r *schedulingv1alpha1.Reservati
 			delete(cache.allocatedOnNode, nodeName)
 		}
 	}
-	return rInfo
 }
 
 func (cache *reservationCache) updateReservationOperatingPod(newPod *corev1.Pod, currentOwner *corev1.ObjectReference) {
